@@ -352,3 +352,13 @@ func TestVerifC05FRRK8s(t *testing.T) {
 		Assumptions: []string{"the speaker hands each session the advertisements of its peer (judged by the C05 speaker engine); this engine judges what the backend makes of them"}},
 		genC15, runC15)
 }
+
+// C19 through this backend: the FRRConfiguration must be a function of the set of requests - the same requests
+// submitted in another order (the speaker's map iteration does that by itself) must not look like a new
+// configuration to the reconciler.
+func TestVerifC19FRRK8sOrder(t *testing.T) {
+	vw.Run(t, vw.Options{Property: "C19", Engine: "frrk8s-order",
+		Rule:        "the session sets of the C15 engine submitted in generated session orders and advertisement orders (repeated prefixes with other prefixes in between): the produced FRRConfiguration must be identical, so that a resubmission of an unchanged state causes no rewrite; non-trivial as in C15",
+		Assumptions: []string{"the reconciler compares the desired FRRConfiguration with the stored one"}},
+		genC15, runC15)
+}
